@@ -122,6 +122,24 @@ HandlerClauses(stim, srv, reqMeta) ==
   << <<"C02.HandlerSeesRequestMessages", srv.msgs = ReqMsgsSeen(stim) /\ srv.err = -1>>,
      <<"C08.HandlerSeesRequestMetadata", MetadataReceived(srv.meta, reqMeta)>> >>
 
+(* ---- the generated client against a canned http response (mode "mock"): C05 response side, C04 classification *)
+MockEnc(m) == LET g == Values(m.headers, "grpc-encoding") IN IF g = <<>> \/ g[1] = S_identity THEN "" ELSE EncOfBytes(g[1])
+MockBody(m) == FlattenSeq(m.body_chunks)
+MockFlagged(m) == \E i \in 1..Len(ParseFrames(MockBody(m)).frames) : ParseFrames(MockBody(m)).frames[i].flag = 1
+MockFramesOK(m) == ParseFrames(MockBody(m)).why = "clean" /\ \A i \in 1..Len(ParseFrames(MockBody(m)).frames) : ParseFrames(MockBody(m)).frames[i].flag = 0
+MockHeadCode(m) == IF HasName(m.headers, "grpc-status") THEN CodeOf(Values(m.headers, "grpc-status")[1]) ELSE -1
+MockTrailCode(m) == IF m.has_trailers /\ HasName(m.trailers, "grpc-status") THEN CodeOf(Values(m.trailers, "grpc-status")[1]) ELSE -1
+MockClauses(stim, cli) ==
+  LET m == stim.mock  enc == MockEnc(m)  accept == SeqToSet(stim.client.accept)
+      refusedEnc == enc # "" /\ enc \notin accept
+      hc == MockHeadCode(m)  tc == MockTrailCode(m)
+  IN << <<"C05.UnsupportedResponseEncodingIsUnimplemented", refusedEnc => (~cli.ok /\ cli.st.code = 12)>>,
+        <<"C04.TrailersOnlyErrorIsReported", (~refusedEnc /\ hc > 0) => (~cli.ok /\ cli.st.code = hc)>>,
+        <<"C05.FlagWithoutEncodingIsInternal", (~refusedEnc /\ hc = -1 /\ enc = "" /\ m.status = 200 /\ MockFlagged(m) /\ m.first_flagged) => (~cli.ok /\ cli.st.code = 13)>>,
+        <<"C04.TrailerStatusIsReported", (~refusedEnc /\ hc = -1 /\ m.status = 200 /\ MockFramesOK(m) /\ tc > 0) => (~cli.ok /\ cli.st.code = tc)>>,
+        <<"C04.HttpStatusIsClassified", (~refusedEnc /\ hc = -1 /\ tc = -1 /\ m.status # 200 /\ MockBody(m) = <<>>) => (~cli.ok /\ cli.st.code = HttpToGrpc(m.status))>>,
+        <<"C02.SuccessNeedsOkStatus", cli.ok => (~refusedEnc /\ hc \in {-1, 0} /\ tc \in {-1, 0})>> >>
+
 (* ---- what the client API must yield (C02, first sentence; C08) *)
 StatusEquals(st, end) == st.some /\ st.code = end.code /\ st.msg = end.msg /\ st.details = end.details
 ClientClauses(stim, cli) ==
